@@ -21,5 +21,5 @@ def queries(tier):
                            unwind=L + 2, timeout=900, mem_gb=14, backend='cadical', flags=FAST,
                            desc='split on %d symbolic bytes, symbolic delimiter and max_splits' % L, bounds='len(s) == %d, all byte values, max_splits in [0,%d]' % (L, L + 1)))
     for e in (0,1):
-        qs.append(dict(name='exp%d' % e, unit='str128', harness='h_exp.c', defs={'LEN': 3, 'EXP': e}, unwind=5, timeout=600, mem_gb=14, backend='cadical', flags=FAST))
+        qs.append(dict(name='exp%d' % e, unit='str128', harness='h_exp.c', defs={'LEN': 2, 'EXP': e}, unwind=4, timeout=600, mem_gb=14, backend='cadical', flags=FAST))
     return qs
